@@ -39,6 +39,8 @@ SCRIPTS = [
     # the two spellings of a tag parameter whose declared type is the scalar "stringlist" (serialising one must not change how the other parses)
     'require "body";\nif body :content ["text", "html"] :contains "x" { keep; }\n',
     'require "body";\nif body :content "text" :contains "x" { keep; }\n',
+    # an accepted script whose last bracketed list belongs to a test (the list the parser was filling last)
+    'if header :is ["Subject", "X-Subject"] ["alpha", "beta"] { keep; }\n',
 ]
 FS_OPS = [
     ("add-plain", [("Subject", ":is", "x")], [("fileinto", "B")]),
@@ -98,7 +100,7 @@ def parse_outcome(ns, parser, text, via_file=False):
     return (obs.verdict, obs.error, obs.error_pos, obs.tree, ser, obs.exc)
 
 
-FPR_SCRIPTS = (0, 1, 2, 10)  # from_parser_result(P1) is enabled when P1's last parse was one of these (all accepted)
+FPR_SCRIPTS = (0, 1, 2, 10, 21)  # from_parser_result(P1) is enabled when P1's last parse was one of these (all accepted)
 
 
 def fs_outcome(ns, fs, op_i, parser=None):
@@ -247,6 +249,7 @@ def run_history(ns, hist, base_parse, base_fs):
     objs = {"P1": ns.parser.Parser(), "P2": ns.parser.Parser(), "F1": ns.factory.FiltersSet("t"), "F2": ns.factory.FiltersSet("t")}
     proj = {"F1": [], "F2": []}
     last_p1 = None
+    held = []  # (event index, the result list an accepted parse handed out, its tree in a pristine interpreter)
     for k, ev in enumerate(hist):
         if ev[0] == "fs" and ev[2] == "fpr-P1":
             if last_p1 not in FPR_SCRIPTS:
@@ -269,6 +272,8 @@ def run_history(ns, hist, base_parse, base_fs):
             if got != want:
                 what = "verdict/error" if got[:3] != want[:3] else ("tree" if got[3] != want[3] else "serialisation")
                 return (k, "parse:" + what, "%s gives %r, pristine interpreter gives %r" % (ev_label(ev), _short(got), _short(want)))
+            if got[0] == "ACC" and isinstance(getattr(p, "result", None), list):
+                held.append((k, p.result, want[3]))
         else:
             proj[ev[1]].append(ev[2])
             got = fs_outcome(ns, objs[ev[1]], ev[2])
@@ -277,6 +282,18 @@ def run_history(ns, hist, base_parse, base_fs):
                 what = "outcome" if got[0] != want[0] else "rendering"
                 return (k, "filters:" + what, "%s gives %r, the same object's own history in a pristine interpreter gives %r" % (
                     ev_label(ev), _short(got), _short(want)))
+    # what an accepted parse handed out stays what it was, whatever the same or another object did afterwards (every prefix is a
+    # history of its own: looking after the last event is enough)
+    for k0, res, tree in held:
+        if k0 == len(hist) - 1:
+            continue
+        try:
+            now = canon.tree_of_result(res, ns)
+        except Exception as e:  # noqa
+            now = ("CANON-ERROR", type(e).__name__)
+        if now != tree:
+            return (len(hist) - 1, "parse:held-tree", "the tree handed out by %s reads differently after %s: %r, it was %r" % (
+                ev_label(hist[k0]), ev_label(hist[-1]), _short(now), _short(tree)))
     return None
 
 
